@@ -316,6 +316,11 @@ def run(ctx):
         ctx.violation("C06:no-progress-counter-disagrees", "the no-progress counter model (sampling rule / reset) does not explain when the solver exited with NoProgress: " + np_terms[failing[0]],
                       {"coq_case": np_terms[failing[0]], "meaning": "CNp max_no_progress [iterate unchanged flags per iteration] exited_with_NoProgress"})
 
+    # whole-loop ties: verified models (Panoc.v, ZeroFpr.v) vs the real solvers on whole runs
+    from vf.props import PANOC, ZEROFPR
+    PANOC.attach(ctx)
+    ZEROFPR.attach(ctx)
+
 def np_case(rq, o):
     """PANOC / ZeroFPR / FISTA runs that ended for a reason ranked below NoProgress or with NoProgress itself"""
     if rq.solver not in ("panoc", "zerofpr", "fista") or "exc" in o or not o["records"]:
@@ -348,8 +353,3 @@ def np_case(rq, o):
             return None
     mnp = int(rq.param("solver.max_no_progress", "10"))
     return "(CNp %s %s %s)" % (coqnat(mnp), coqlist([coqbool(b) for b in sames]), coqbool(exit_np))
-    # whole-loop tie for PANOC: verified model (Panoc.v) vs the real solver on whole runs
-    from vf.props import PANOC
-    PANOC.attach(ctx)
-    from vf.props import ZEROFPR
-    ZEROFPR.attach(ctx)
